@@ -84,6 +84,13 @@ impl Monitor for C07 {
             let a = DecV { neg: true, mant: 39614081257132168796771975167, scale: 0 };
             ctx.check(&Case::new(ev, "depth1", "@%0.200000000000000000000000002", Val::D(a)), &|c, st| self.judge(c, st));
         }
+        // three operations sharing an operand, and the shape family
+        for (c, e) in repeated_operand_family(ev).into_iter().chain(shape_family(ev)) {
+            if ctx.mine() {
+                let s = c.replace("{h}", &format!("({})", e));
+                ctx.check(&Case::new(ev, "shape", &s, zero), &|c, st| self.judge(c, st));
+            }
+        }
         // chains built to be exact at every step: x = q*a*b (*c) with small coefficients and scales that
         // add up to at most 28, written x/a/b, x/a*b, x/(a*b), q*a*b, x/a/b/c, x%a ... - so the exact
         // quotient is known to be representable whatever the scales of the operands (sum of the divisors'
